@@ -54,6 +54,7 @@ struct Scenario {
   bool autoPgscan = true;  // pgscan of every cgroup grows by its base value each tick
   // optional scripting (not part of describe())
   std::function<void(Oomd::Oomd&)> afterMake;                       // e.g. install a drop-in adaptor
+  std::function<void(int pid, int err)> afterKill;                // environment reaction to each kill(2) call
   std::function<void(int tick)> onTick;                            // scripted environment step before each tick
   std::function<bool(const std::string&, long, int)> hookDecide;   // verif_hook poll answers
   double killLatency = 0;  // virtual seconds every kill(2) call takes
@@ -194,6 +195,7 @@ inline Outcome run(const Scenario& s, bool verbose = false) {
   }
   sim::decide = [](const std::string&, const std::string&) { return 0; };
   sim::hookDecide = s.hookDecide;
+  world::afterKill = s.afterKill;
   vb::killLatencySec = s.killLatency;
   if (s.afterMake) s.afterMake(*o);
   out.tickStart.assign(s.ticks + 2, 0);
@@ -242,6 +244,7 @@ inline Outcome run(const Scenario& s, bool verbose = false) {
   out.calls = sim::calls;
   out.hooks = sim::hookEvents;
   vb::killLatencySec = 0;
+  world::afterKill = nullptr;
   // parse attempts
   Attempt* cur = nullptr;
   for (size_t i = 0; i < out.effects.size(); i++) {
